@@ -16,7 +16,8 @@ REPO = os.environ.get('DADI_REPO', '/repo')
 # registered checks use /repo; a scratch copy of the repository (DADI_REPO=/tmp/...) gets its own
 # case/evidence/replay directories under build/ so that it never disturbs the real ones
 _SFX = '' if REPO == '/repo' else '_' + hashlib.md5(REPO.encode()).hexdigest()[:8]
-CASES = os.path.join(BUILD, 'cases' + _SFX)
+_CASES_ROOT = os.path.join(BUILD, 'cases' + _SFX)
+CASES = _CASES_ROOT
 EVIDENCE = os.path.join(VERIF, 'evidence') if not _SFX else os.path.join(BUILD, 'evidence' + _SFX)
 REPLAYS = os.path.join(VERIF, 'replays') if not _SFX else os.path.join(BUILD, 'replays' + _SFX)
 COQ_FLAGS = ['-Q', THEORIES, 'Dadi', '-w', '-notation-overridden,-deprecated-hint-without-locality,-deprecated-instance-without-locality']
@@ -141,6 +142,9 @@ def run_case_files(files, timeout=600, jobs=16):
 
 class Ctx:
     def __init__(self, prop, tier, seed, replay=None):
+        # one private directory of generated Coq files per run, so that concurrent runs never share file names
+        global CASES
+        CASES = os.path.join(_CASES_ROOT, '%s_%s_%d_%d' % (prop, tier, seed, os.getpid()))
         self.prop = prop
         self.tier = tier
         self.seed = seed
@@ -322,12 +326,19 @@ def finish(ctx):
         if i >= 9:
             break
     write_evidence(ctx, len(real), sorted(printed))
+    if rc == 0 and CASES != _CASES_ROOT and os.environ.get('VERIF_KEEP_CASES') != '1':
+        import shutil
+        shutil.rmtree(CASES, ignore_errors=True)
     return rc
 
 def write_evidence(ctx, nviol, known_printed):
     os.makedirs(EVIDENCE, exist_ok=True)
-    nob = len(ctx.obligations)
-    ndis = sum(1 for o in ctx.obligations if o['ok'])
+    # obligations that fail exactly because of a listed known finding are reported separately: they are neither
+    # discharged nor counted as obligations of the claim (the finding itself is the statement about them)
+    kf = [o for o in ctx.obligations if not o['ok'] and o.get('known_key') in known_printed]
+    counted = [o for o in ctx.obligations if o not in kf]
+    nob = len(counted)
+    ndis = sum(1 for o in counted if o['ok'])
     kinds = {}
     for o in ctx.obligations:
         k = kinds.setdefault(o['kind'], [0, 0])
@@ -343,7 +354,8 @@ def write_evidence(ctx, nviol, known_printed):
         'samples': ctx.samples,
         'input_distribution': ctx.stats,
         'max_observed_error_log2_vs_tolerance': {k: {'log2_rel_err': v[0], 'tolerance': v[1]} for k, v in ctx.max_err.items()},
-        'failed_obligations': [o for o in ctx.obligations if not o['ok']][:20],
+        'failed_obligations': [o for o in counted if not o['ok']][:20],
+        'obligations_failing_only_because_of_listed_known_findings': len(kf),
         'known_findings_printed': known_printed,
         'notes': ctx.notes,
     }
